@@ -187,15 +187,24 @@ def apply_mutant(root, m):
 
 
 def sh(cmd, cwd=None, env=None, timeout=1800):
+    """run a command in its own process group; on timeout the whole group is killed (a mutated test
+    binary that loops forever would otherwise survive cargo and burn a core for hours)"""
+    import signal
     e = dict(os.environ, CARGO_NET_OFFLINE="true", RUST_BACKTRACE="0", CARGO_TERM_COLOR="never")
     if env:
         e.update(env)
+    p = subprocess.Popen(cmd, cwd=cwd, shell=isinstance(cmd, str), stdout=subprocess.PIPE, stderr=subprocess.STDOUT, text=True,
+                         env=e, start_new_session=True)
     try:
-        r = subprocess.run(cmd, cwd=cwd, shell=isinstance(cmd, str), stdout=subprocess.PIPE, stderr=subprocess.STDOUT, text=True,
-                           timeout=timeout, env=e)
-        return r.returncode, r.stdout
-    except subprocess.TimeoutExpired as ex:
-        return 124, (ex.stdout or b"").decode("utf8", "replace") if isinstance(ex.stdout, bytes) else (ex.stdout or "")
+        out, _ = p.communicate(timeout=timeout)
+        return p.returncode, out
+    except subprocess.TimeoutExpired:
+        try:
+            os.killpg(p.pid, signal.SIGKILL)
+        except Exception:
+            pass
+        out, _ = p.communicate()
+        return 124, out or ""
 
 
 class Lane:
